@@ -96,7 +96,7 @@ def run_histories(chk, n, nops, tag_filter, label, family=None, seed_salt='', jo
             m = re.match(r'(MISMATCH|VIOLATION)\[([^\]:]*)(?::([^\]]*))?\]', p)
             tag = m.group(2) if m else 'other'
             full = tag + (':' + m.group(3) if m and m.group(3) else '')
-            if tag in ('other', 'fault') or tag in tag_filter or full in tag_filter:
+            if tag in ('other', 'fault', 'reopen') or tag in tag_filter or full in tag_filter:
                 # oracle_tags: checks evaluated on the implementation's own reported state that ARE this property's statement
                 (viol if p.startswith('VIOLATION') or tag in oracle_tags else mism).append((r, p))
     chk.extra.setdefault('history_totals', {})[label] = totals
